@@ -10,17 +10,33 @@ open Rscp Rscp.Model
 theorem newClient_ok_iff (c : Config) :
     (∃ r, newClient c = .ok r) ↔
       (c.address ≠ [] ∧ c.username ≠ [] ∧ c.password ≠ [] ∧ c.key ≠ [] ∧ c.useChecksum ≠ .otherType) := by
-  sorry
+  unfold newClient
+  rcases Lemmas.Config.checkConfig_cases c with ⟨hm, h⟩ | ⟨hm, hu, h⟩ | ⟨hm, hu, h⟩ | ⟨hm, ⟨b, hu⟩, h⟩ <;> rw [h]
+  · constructor
+    · rintro ⟨r, hr⟩; cases hr
+    · rintro ⟨h1, h2, h3, h4, _⟩
+      exact absurd ((Lemmas.Config.missingOf_eq_nil c).2 ⟨h1, h2, h3, h4⟩) hm
+  · constructor
+    · rintro ⟨r, hr⟩; cases hr
+    · rintro ⟨_, _, _, _, h5⟩; exact absurd hu h5
+  · obtain ⟨h1, h2, h3, h4⟩ := (Lemmas.Config.missingOf_eq_nil c).1 hm
+    exact ⟨fun _ => ⟨h1, h2, h3, h4, by rw [hu]; intro hh; cases hh⟩, fun _ => ⟨_, rfl⟩⟩
+  · obtain ⟨h1, h2, h3, h4⟩ := (Lemmas.Config.missingOf_eq_nil c).1 hm
+    exact ⟨fun _ => ⟨h1, h2, h3, h4, by rw [hu]; intro hh; cases hh⟩, fun _ => ⟨_, rfl⟩⟩
 
 /-- no configuration panics -/
 theorem newClient_total (c : Config) : newClient c ≠ .panic := by
-  sorry
+  unfold newClient
+  rcases Lemmas.Config.checkConfig_cases c with ⟨hm, h⟩ | ⟨hm, hu, h⟩ | ⟨hm, hu, h⟩ | ⟨hm, ⟨b, hu⟩, h⟩ <;> rw [h] <;>
+    intro hh <;> cases hh
 
 /-- the error names exactly the missing fields, in the documented order -/
 theorem missing_names (c : Config) (fields : List String) (h : checkConfig c = .missing fields) :
     fields = (if c.address = [] then ["address"] else []) ++ (if c.username = [] then ["username"] else []) ++
              (if c.password = [] then ["password"] else []) ++ (if c.key = [] then ["key"] else []) ∧ fields ≠ [] := by
-  sorry
+  rcases Lemmas.Config.checkConfig_cases c with ⟨hm, h'⟩ | ⟨hm, hu, h'⟩ | ⟨hm, hu, h'⟩ | ⟨hm, ⟨b, hu⟩, h'⟩ <;>
+    rw [h'] at h <;> cases h
+  exact ⟨rfl, hm⟩
 
 /-- the documented defaults: port 5033, 3-second timeouts rather than none, a one-block receive buffer,
     checksums on; values in range are kept -/
@@ -32,17 +48,40 @@ theorem defaults (c c' : Config) (h : checkConfig c = .ok c') :
     c'.bufBlocks = (if c.bufBlocks = 0 ∨ c.bufBlocks > 2049 then 1 else c.bufBlocks) ∧
     c'.useChecksum = (match c.useChecksum with | .unset => .bool true | x => x) ∧
     c'.address = c.address ∧ c'.username = c.username ∧ c'.password = c.password ∧ c'.key = c.key := by
-  sorry
+  rcases Lemmas.Config.checkConfig_cases c with ⟨hm, h'⟩ | ⟨hm, hu, h'⟩ | ⟨hm, hu, h'⟩ | ⟨hm, ⟨b, hu⟩, h'⟩ <;>
+    rw [h'] at h <;> cases h
+  · exact ⟨rfl, rfl, rfl, rfl, rfl, by rw [hu], rfl, rfl, rfl, rfl⟩
+  · exact ⟨rfl, rfl, rfl, rfl, rfl, by rw [hu]; exact hu, rfl, rfl, rfl, rfl⟩
 
 /-- every effective timeout is positive and the effective buffer is between 1 and 2049 blocks: no call can be
     configured to wait for ever or to read into an empty buffer (port < 65536 ⇒ stays a uint16) -/
 theorem effective_config_sane (c c' : Config) (h : checkConfig c = .ok c') :
     0 < c'.connTimeout ∧ 0 < c'.sendTimeout ∧ 0 < c'.recvTimeout ∧ 1 ≤ c'.bufBlocks ∧ c'.bufBlocks ≤ 2049 ∧
     (∃ b, c'.useChecksum = .bool b) := by
-  sorry
+  have hsane : ∀ c : Config, 0 < (Lemmas.Config.eff c).connTimeout ∧ 0 < (Lemmas.Config.eff c).sendTimeout ∧
+      0 < (Lemmas.Config.eff c).recvTimeout ∧ 1 ≤ (Lemmas.Config.eff c).bufBlocks ∧
+      (Lemmas.Config.eff c).bufBlocks ≤ 2049 := by
+    intro c
+    simp only [Lemmas.Config.eff]
+    refine ⟨?_, ?_, ?_, ?_, ?_⟩ <;> split <;> omega
+  obtain ⟨s1, s2, s3, s4, s5⟩ := hsane c
+  rcases Lemmas.Config.checkConfig_cases c with ⟨hm, h'⟩ | ⟨hm, hu, h'⟩ | ⟨hm, hu, h'⟩ | ⟨hm, ⟨b, hu⟩, h'⟩ <;>
+    rw [h'] at h <;> cases h
+  · exact ⟨s1, s2, s3, s4, s5, true, rfl⟩
+  · exact ⟨s1, s2, s3, s4, s5, b, hu⟩
 
 /-- the key handed to the cipher is always one 32-byte block -/
 theorem key_block (c c' : Config) (k : List Byte) (h : newClient c = .ok (c', k)) : k.length = 32 ∧ k = mkKey c.key := by
-  sorry
+  unfold newClient at h
+  rcases Lemmas.Config.checkConfig_cases c with ⟨hm, h'⟩ | ⟨hm, hu, h'⟩ | ⟨hm, hu, h'⟩ | ⟨hm, ⟨b, hu⟩, h'⟩ <;>
+    rw [h'] at h <;> cases h
+  · exact ⟨Lemmas.Crypt.mkKey_length _, rfl⟩
+  · exact ⟨Lemmas.Crypt.mkKey_length _, rfl⟩
 
+#print axioms newClient_ok_iff
+#print axioms newClient_total
+#print axioms missing_names
+#print axioms defaults
+#print axioms effective_config_sane
+#print axioms key_block
 end Rscp.Props.C16
